@@ -348,7 +348,7 @@ def bl5(ctx, R):
             s_ = [t for t in s_[2] if t != ("const", 0)][0]
         if s_[0] == "sum" and not s_[4]:
             elt, bv, ENC = s_[1], s_[2], s_[3]
-            ok_s = elt == ("binop", "+", tuple(sorted([("const", 4), ("len", bv)], key=repr)))
+            ok_s = elt[0] == "binop" and elt[1] == "+" and len(elt[2]) == 2 and set(elt[2]) == {("const", 4), ("len", bv)}
     R.check(ok_s, "writer.object_data_size::string size", ods.where(), "sum over the encoded strings of 4 (offset) + len(encoded)",
             "the declared size of string data is `%s`, not the sum over the encoded byte strings of a 4-byte offset plus the encoded length, which is what "
             "write_string_values writes" % (show(alpha(S))[:160] if S else None))
@@ -389,11 +389,17 @@ def bl5(ctx, R):
         # accumulate(len(s) for s in ENC)
         inner = collect(it, lambda x: is_enc(x, sparam))
         return bool(inner) and it[0] == "call" and it[1] in ("accumulate", "itertools.accumulate")
-    R.check(sorted(k for k, _ in kinds) == ["bytes", "offset"] and all(over_enc(it) for _, it in kinds), "writer.write_string_values::offsets then bytes over the encoded strings", wsv.where(),
-            "one Uint32 end offset and the encoded bytes per value, over the same encoded list", "string data is written as %s" % [(k, show(alpha(it))[:60]) for k, it in kinds])
+    from .sem import module_region
+    wregion = module_region(prog, wsv)
+    if not kinds and len(wregion) > 1:
+        R.undecided("writer.write_string_values::offsets then bytes over the encoded strings", wsv.where(),
+                    "the offsets and the bytes are not written by loops of write_string_values itself (delegated to %s): not decided" % wregion[1].qual)
+    else:
+        R.check(sorted(k for k, _ in kinds) == ["bytes", "offset"] and all(over_enc(it) for _, it in kinds), "writer.write_string_values::offsets then bytes over the encoded strings", wsv.where(),
+                "one Uint32 end offset and the encoded bytes per value, over the same encoded list", "string data is written as %s" % [(k, show(alpha(it))[:60]) for k, it in kinds])
     R.check(_type_size(prog, wmod, "Uint32") == 4, "writer.write_string_values::4-byte offsets", wsv.where(), "Uint32 offsets match the 4 bytes per value declared", "offset type is not 4 bytes")
     # running offset = cumulative encoded length
-    t = unparse(wsv.node)
+    t = "\n".join(unparse(f_.node) for f_ in wregion)
     R.check(("+= len(" in t) or ("accumulate(" in t), "writer.write_string_values::cumulative offsets", wsv.where(), "offsets are running totals of the encoded lengths",
             "string offsets are not cumulative encoded lengths")
     helper_funcs = [f for f in prog.functions.values() if f.module is wmod and f.name.startswith("_") and ".encode(" in unparse(f.node)]
